@@ -77,6 +77,8 @@ var mutOps = []mutOp{
 	{"C01", "C01.R9", "eval/eval.go", `(?s)case token\.BREAK:\s+return lastEval\s+case token\.CONTINUE:\s+continue\s+default: // return`, "default: // return", "while-form loop stops handling break/continue"},
 	{"C14", "C14.R7", "object/state.go", `(?s)if ref\.RefEnv\.depth == 0 \{\s+ref\.RefEnv\.numSet\+\+[^\n]*\n\s+\}`, "", "first write through a fresh reference no longer advances numSet"},
 	{"C04", "C04.R2", "object/state.go", `e\.getMiss\+\+ // a write outside of this frame[^\n]*\n`, "", "update through a reference no longer counts as a miss"},
+	{"C13", "C13.R9", "eval/macro_expension.go", `extended\.SetNoChecks\(param\.Value\(\)\.Literal\(\), args\[paramIdx\], true\)`, "extended.Set(param.Value().Literal(), args[paramIdx])", "macro parameters bound with Set"},
+	{"C01", "C01.R10", "eval/eval.go", `(?s)if oerr := s\.env\.Set\(name, v\); oerr\.Type\(\) == object\.ERROR \{\s+return oerr[^\n]*\n\s+\}`, "s.env.Set(name, v)", "list loop drops the binding error"},
 	{"C01", "C01.R8", "eval/eval.go", `condition := object\.Value\(s\.evalInternal\(ie\.Condition\)\)`, "condition := s.evalInternal(ie.Condition)", "if condition no longer dereferenced"},
 	{"C07", "C07.R9", "object/object.go", `return NULL, false, m\.len\n`, "return NULL, false, m.len + 1\n", "SmallMap.get reports an insertion point past len (relational summary)"},
 	{"C07", "C07.R9", "object/object.go", `if nl > MaxSmallMap \{\n\t\treturn &BigMap\{kv: m\.kv\[1:\]\}`, "if nl > MaxSmallMap+1 {\n\t\treturn &BigMap{kv: m.kv[1:]}", "small-map threshold off by one"},
